@@ -28,7 +28,7 @@ ASSUMPTIONS = [
 
 def session(exe, lines, env):
     r = subprocess.run([exe], input="\n".join(lines) + "\n", env=env, capture_output=True, text=True, timeout=900)
-    out = [json.loads(l) for l in r.stdout.splitlines() if l.startswith("{") or l.startswith("[")]
+    out = [json.loads(l) for l in r.stdout.split("\n") if l.startswith("{") or l.startswith("[")]
     return r.returncode, out
 
 
